@@ -419,6 +419,11 @@ mod resolve_names {
                         self.visit_expr(arg);
                         self.ty_color_stack.pop();
                     }
+                    // Too many arguments is an error that the type checker reports later,
+                    // but the names in the extra arguments must still be resolved (or diagnosed).
+                    for arg in call.args.iter().skip(siggy.params.len()) {
+                        self.visit_expr(arg);
+                    }
                 },
                 None => call.args.iter().for_each(|arg| self.visit_expr(arg)),
             }
